@@ -5,6 +5,16 @@
         not yet authenticated connection, and the response is the model's: the 233 response after an
         accepting verdict (or on an already authenticated connection), the oracle's (the masquerade handler
         alone on a recorder) otherwise.
+   CGate: the same for a connection on which requests are in flight CONCURRENTLY (an auth request is held inside
+   Authenticate by the harness while further auth requests, other requests, proxy streams and datagrams arrive).
+   The recorded action sequence places the HttpReq of an auth request where its handler is first seen inside the
+   critical section (its Authenticate call, or its response when it is answered without one), so
+     - an auth request answered while another one is inside Authenticate is refused by the model
+       (run = None: step (HttpReq c r) = None while in_auth <> None - the requests are serialised by authMutex);
+     - the handler-side observables (authenticator / masquerade / logger calls) must come in the model's order;
+     - the responses are compared as a set (each carries its request, requests are distinguished by r_tag): the
+       clients of concurrent requests log their responses in no particular order;
+     - c02_mon on the recorded log: no response other than the masquerade's before an accepting verdict.
    Used by the generated run/C02/cases_*.v files; not part of any theorem. *)
 From Hy Require Import gen.ParamsC01 model.C01_ServerAuth corr.C01_Corr.
 Local Open Scope N_scope.
@@ -21,7 +31,8 @@ Record rq := mkRq {
 }.
 
 Inductive case :=
-| CConn (cfg : config) (masq_seen : bool) (table : list response) (log : list ev) (rs : list rq).
+| CConn (cfg : config) (masq_seen : bool) (table : list response) (log : list ev) (rs : list rq)
+| CGate (cfg : config) (masq_seen : bool) (table : list response) (log : list ev) (rs : list rq).
 
 Definition check_rq (cfg : config) (q : rq) : bool :=
   let r := q_req q in
@@ -32,10 +43,51 @@ Definition check_rq (cfg : config) (q : rq) : bool :=
    then resp_eqb (q_resp q) (resp_auth_ok cfg (pad_of (q_padn q)))
    else resp_eqb (q_resp q) (q_oracle q) && negb (status (q_resp q) =? status_auth_ok)).
 
+Definition all_in (a b : list obs) : bool := forallb (fun o => existsb (obs_eqb o) b) a.
+
+Definition same_set (a b : list obs) : bool := Nat.eqb (length a) (length b) && all_in a b && all_in b a.
+
+Fixpoint tags_distinct (l : list obs) : bool :=
+  match l with
+  | [] => true
+  | ObsResp _ r _ :: t => negb (existsb (fun o => match o with ObsResp _ r' _ => r_tag r' =? r_tag r | _ => false end) t) && tags_distinct t
+  | _ :: t => tags_distinct t
+  end.
+
+Definition check_conc (cfg : config) (ms : bool) (table : list response) (log : list ev) : bool :=
+  let masq := table_masq table in
+  match run cfg masq init (acts_of log) with
+  | None => false
+  | Some (_, tr) =>
+      forallb (fun c => obs_list_eqb (proj c false ms (obs_of tr)) (proj c false ms (obs_of log)) &&
+                        same_set (proj c true ms (obs_of tr)) (proj c true ms (obs_of log)) &&
+                        tags_distinct (proj c true ms (obs_of log)))
+              [0; 99] &&
+      c01_mon [] log && c02_mon masq [] log && forallb pad_in_range log
+  end.
+
 Definition check (c : case) : bool :=
   match c with
   | CConn cfg ms table log rs =>
       C01_Corr.check (CHist cfg 1 ms table log) && forallb (check_rq cfg) rs
+  | CGate cfg ms table log rs =>
+      check_conc cfg ms table log && forallb (check_rq cfg) rs
+  end.
+
+(* diagnosis helper for a failing CGate case *)
+Definition explain_conc (c : case) : list N :=
+  match c with
+  | CConn _ _ _ _ _ => []
+  | CGate cfg ms table log rs =>
+      let masq := table_masq table in
+      match run cfg masq init (acts_of log) with
+      | None => [0]
+      | Some (_, tr) =>
+          (if obs_list_eqb (proj 0 false ms (obs_of tr)) (proj 0 false ms (obs_of log)) then [] else [1]) ++
+          (if same_set (proj 0 true ms (obs_of tr)) (proj 0 true ms (obs_of log)) then [] else [2]) ++
+          (if c01_mon [] log then [] else [3]) ++ (if c02_mon masq [] log then [] else [4]) ++
+          (if forallb pad_in_range log then [] else [5]) ++ (if forallb (check_rq cfg) rs then [] else [6])
+      end
   end.
 
 Definition mismatches (l : list case) : list nat := mism_from check 0 l.
